@@ -55,9 +55,9 @@ for p in props:
 m = {
  'version': 1,
  'setup_cmd': "/venv/bin/python -m compileall -q isosim && /venv/bin/python -c \"import sys; sys.path.insert(0,'.'); from isosim import world; world.ensure_repo_on_path(); print('isosim ok')\"",
- 'hooks': {'guard': 'PYCDLIB_VERIF', 'enable': 'no hooks in /repo: every seam (time, random, uuid, open, os.stat, file objects, tool module globals) is reached from outside through module attributes and public arguments; nothing to enable',
+ 'hooks': {'guard': 'PYCDLIB_VERIF', 'enable': 'PYCDLIB_VERIF=1 in the environment before pycdlib is imported (isosim/world.py sets it): makes pycdlib.pycdlib._MAX_EXTENT_LENGTH (the length at which a file is split into several extents, 0xfffff800 as shipped) overridable, through PYCDLIB_VERIF_MAX_EXTENT or by the simulator assigning the module attribute per run; every other seam (time, random, uuid, open, os, file objects, tool module globals) is reached from outside without any change to /repo',
            'baseline_off_cmd': 'cd /repo && /venv/bin/python -m pytest -ra -q -p no:cacheprovider --timeout=900 --continue-on-collection-errors',
-           'source_commits': [], 'add_only': True},
+           'source_commits': ['1311f1a8840973689b25d67fa52d5ff0d20fe56f'], 'add_only': False},
  'engines': [{'name': 'isosim', 'path': 'isosim/', 'serves_properties': built,
               'kind_free_text': 'own deterministic simulator: seeded world (clock, TZ, entropy, cache sizes), simulated disks/files with fault plans and complete op logs, reference model, independent decoders (ECMA-119, SUSP/RRIP, ECMA-167/UDF, El Torito, MBR/GPT/APM), minimiser, replay files, known-findings matching'}],
  'checks': checks,
